@@ -22,14 +22,20 @@ TOL = 1e-8
 TOL_MODES = 1e-12
 
 RULE = (
-    "One run = one (estimator kind, configuration, data set, row/feature chunking, executor "
-    "model, scheduling policy) drawn from blake2b(VERIF_SEED/i); the real fit() runs on "
-    "da.from_array(X, chunks) under SimScheduler and is compared with the in-memory fit of the "
-    "same tree (model, criterion, thresholded stop) and, in half of the runs, across the "
-    "shared/isolated/placed executor models. Fixed cases enumerate every row composition of "
-    "n<=6 (thorough: n<=7) rows for k-means, GMM-ML and GMM-MAP. A run is non-trivial if the "
-    "simulator made at least one real scheduling/placement choice; distinct = distinct "
-    "(case digest, event-log digest)."
+    "One run = one (estimator kind in {k-means, GMM-ML, GMM-MAP, k-means-initialised GMM, ISV and "
+    "JFA from labelled arrays, WCCN, whitening}, configuration incl. rarely used options (pinv, "
+    "mean_var_update_threshold, ubm_kwargs), data set (2..300 rows, float64 / float32 / integer "
+    "valued, C / Fortran / strided layout), row chunking (1..160 blocks, single-row, very uneven), "
+    "feature chunking, unknown chunk sizes (lazy row filter; GMM kinds), label container and "
+    "dtype, refit of the same estimator object, executor model in {shared, isolated, placed(W), "
+    "threads(T)}, scheduling policy) drawn from blake2b(VERIF_SEED/i). The real fit() runs on the "
+    "Dask array under SimScheduler and is compared with the in-memory fit of the same tree "
+    "(model, criterion, thresholded stop) and, in half of the runs, across executor models. "
+    "Fixed cases: every row composition of n<=5 (thorough n<=7) rows x 3 executor models x "
+    "{k-means, GMM-ML, GMM-MAP}; a fault-free sub-batch (one block, shared, fifo); many-block "
+    "layouts (15..257 blocks, thorough ..513) for seven kinds. Non-trivial = at least one real "
+    "scheduling/placement/pre-emption choice; distinct = distinct (case digest, event-log + "
+    "result digest)."
 )
 ASSUMPTIONS = [
     "SimScheduler models Dask's synchronous/threaded (shared), multiprocessing (isolated) and "
